@@ -460,7 +460,8 @@ async def _foreign_abort_case(loop, style, when, n_body):
     import foreign
 
     big = content(4096 * 6 + 77)
-    wd = foreign.ForeignWorld(loop, {"multiline": style, "retr_pause": 0.05})
+    # (only the replies an ABOR brings are spelled the other way: what is judged here is abort(), not the login)
+    wd = foreign.ForeignWorld(loop, {"multiline": style, "retr_pause": 0.05, "multi_codes": ("426", "226")})
     if n_body is not None:
         spell = wd.server.spell
         wd.server.spell = lambda code, text, n=None: spell(code, text, n_body)
@@ -527,7 +528,7 @@ def _foreign_job(args):
 
 def _foreign_judge(inp, o):
     if isinstance(o, str):
-        return {"input": inp, "what": "the client never came back from this history (%s)" % o, "signature": "C14:client:foreign-peer-hang"}
+        return {"input": inp, "what": "the session with the foreign peer did not get through this history (%s)" % o, "signature": "C14:client:foreign-peer-session-failed"}
     if o["abort"] != "ok":
         return {"input": inp, "what": "Client.abort() raised %s although the peer answered ABOR as RFC 959 says" % o["abort"], "signature": "C14:client:abort-raised"}
     follow = [(k, [(p.rsplit("/", 1)[-1], t) for p, t in v] if k == "list" else v) for k, v in o["follow"]]
